@@ -19,8 +19,17 @@ EXTREMES = [0, 1, -1, 2, 7, 8, 255, 256, 65535, 65536, 2**31 - 1, 2**31, 2**32 -
 I64 = [e for e in EXTREMES if -2**63 <= e <= I64MAX]
 
 
+_LIMIT = []
+
+
 def nesting_limit():
     """reader::MAX_NESTING (arrays / dictionaries); MAX_BRACKET before the constant existed"""
+    if not _LIMIT:
+        _LIMIT.append(_nesting_limit())
+    return _LIMIT[0]
+
+
+def _nesting_limit():
     try:
         src = open(os.path.join(vlib.REPO, 'src', 'reader.rs')).read()
     except OSError:
@@ -212,7 +221,7 @@ def mutate(rng, b):
         p = rng.randrange(len(b))
         b[p:p] = b[i:j]
     elif k == 'insert-nest':
-        n = rng.choice([50, 99, 100, 101, 150, 2000, 30000])
+        n = rng.choice([nesting_limit() - 1, nesting_limit(), nesting_limit() + 1, 50, 99, 100, 101, 150, 2000, 30000])
         o, c = rng.choice([(b'[', b']'), (b'<</A', b'>>'), (b'(', b')'), (b'[<</K', b'>>]')])
         ms = [m.start() for m in re.finditer(rb'<<|\[|\(', bytes(b))]
         p = rng.choice(ms) if ms else rng.randrange(len(b))
@@ -319,7 +328,7 @@ def gen_content(rng):
     if r < 0.5:
         return 'inline', rng.choice([b'', b'q ']) + gen_inline_image(rng) + rng.choice([b'', b' Q', b' BI'])
     if r < 0.7:
-        n = rng.choice([1, 50, 99, 100, 101, 102, 500, 20000])
+        n = rng.choice([1, nesting_limit() - 1, nesting_limit(), nesting_limit() + 1, 50, 99, 100, 101, 102, 500, 20000])
         o, c = rng.choice([(b'[', b']'), (b'<</A', b'>>'), (b'(', b')'), (b'[<</K[', b']>>]'), (b'[(', b')]')])
         closed = rng.random() < 0.6
         return 'nest', o * n + (b' 1 ' + c * n if closed else b'') + rng.choice([b' TJ', b'', b' Tj'])
@@ -341,7 +350,7 @@ def gen_objstm(rng):
         body += m + b' '
     r = rng.random()
     if r < 0.25:
-        n = rng.choice([99, 100, 101, 3000, 40000])
+        n = rng.choice([nesting_limit() - 1, nesting_limit(), nesting_limit() + 1, 99, 100, 101, 3000, 40000])
         body = rng.choice([b'[', b'<</A']) * n
         idx = b'1 0 '
     content = idx + body
